@@ -5,7 +5,9 @@ use rustc_hir::def_id::DefId;
 use rustc_middle::ty::{self, GenericArgKind, Ty, TyCtxt};
 
 pub fn path(tcx: TyCtxt<'_>, did: DefId) -> String {
-    ty::print::with_no_trimmed_paths!(ty::print::with_crate_prefix!(tcx.def_path_str(did)))
+    ty::print::with_no_visible_paths!(ty::print::with_no_trimmed_paths!(ty::print::with_crate_prefix!(
+        tcx.def_path_str(did)
+    )))
 }
 
 pub fn region(r: ty::Region<'_>) -> J {
@@ -132,7 +134,7 @@ pub fn ty<'tcx>(tcx: TyCtxt<'tcx>, t: Ty<'tcx>) -> J {
 
 /// Full-path display string of a type (for humans and for coarse "mentions X" queries).
 pub fn ty_str<'tcx>(t: Ty<'tcx>) -> String {
-    ty::print::with_no_trimmed_paths!(format!("{}", t))
+    ty::print::with_no_visible_paths!(ty::print::with_no_trimmed_paths!(format!("{}", t)))
 }
 
 pub fn clause<'tcx>(tcx: TyCtxt<'tcx>, c: ty::Clause<'tcx>) -> J {
@@ -173,7 +175,7 @@ pub fn clause<'tcx>(tcx: TyCtxt<'tcx>, c: ty::Clause<'tcx>) -> J {
         other => J::obj(vec![("k", J::s("other")), ("s", J::s(format!("{:?}", other)))]),
     };
     o.push("bound_vars", J::Num(nbound as i64));
-    o.push("s", J::s(ty::print::with_no_trimmed_paths!(format!("{}", c))));
+    o.push("s", J::s(ty::print::with_no_visible_paths!(ty::print::with_no_trimmed_paths!(format!("{}", c)))));
     o
 }
 
